@@ -786,3 +786,117 @@ Lemma shared_example :
   /\ shared_candidates [([47; 115], [47; 119])] [47; 115; 47; 46; 46; 47; 98] = []
   /\ shared_candidates [([47; 115], [47; 119])] [47; 115; 120; 47; 98] = [].
 Proof. vm_compute. repeat split; reflexivity. Qed.
+
+(* ------------------------------------------------------------------ secure_filename on Windows *)
+
+Lemma secure_core_os_posix s : secure_core_os false s = secure_core s.
+Proof. reflexivity. Qed.
+
+Lemma devices_facts :
+  forallb (fun d => negb (starts_with [device_prefix] d) && negb (is_nil d)) windows_device_files
+  && negb (device_prefix =? device_field_sep) && (ascii_upper device_prefix =? device_prefix) = true.
+Proof. vm_compute. reflexivity. Qed.
+
+Lemma mem_str_prefixed x : mem_str (device_prefix :: x) windows_device_files = false.
+Proof.
+  pose proof devices_facts as H. apply andb_prop in H. destruct H as [H _]. apply andb_prop in H. destruct H as [H _].
+  unfold mem_str. induction windows_device_files as [|d l IH]; [reflexivity|].
+  cbn [forallb] in H. apply andb_prop in H. destruct H as [Hd Hl]. apply andb_prop in Hd. destruct Hd as [Hd _].
+  cbn [existsb]. rewrite (IH Hl), orb_false_r. destruct d as [|c d]; [reflexivity|].
+  cbn [starts_with] in Hd. rewrite andb_true_r in Hd. cbn [list_eqb]. destruct (device_prefix =? c); [discriminate|reflexivity].
+Qed.
+
+Lemma is_device_prefixed f : is_device (device_prefix :: f) = false.
+Proof.
+  pose proof devices_facts as H. apply andb_prop in H. destruct H as [H Hu]. apply andb_prop in H. destruct H as [_ Hs].
+  unfold is_device, first_field. cbn [partition1]. rewrite N.eqb_sym.
+  destruct (device_prefix =? device_field_sep); [discriminate|].
+  destruct (partition1 device_field_sep f) as [a b]. cbn [fst upper map]. apply N.eqb_eq in Hu. rewrite Hu.
+  apply mem_str_prefixed.
+Qed.
+
+Lemma is_device_nil : is_device [] = false.
+Proof. vm_compute. reflexivity. Qed.
+
+Lemma forallb_replace_char (p : N -> bool) x y s : p y = true -> forallb p s = true -> forallb p (replace_char x y s) = true.
+Proof.
+  intros Hy. unfold replace_char. induction s as [|c s IH]; cbn [map forallb]; intro H; [reflexivity|].
+  apply andb_prop in H. destruct H as [Hc Hs]. rewrite (IH Hs), andb_true_r. destruct (c =? x); assumption.
+Qed.
+
+Section NfkdWindows.
+  Variable nfkd : str -> str.
+  Definition secure_filename_os (nt : bool) (s : str) : str := secure_core_os nt (nfkd s).
+
+  (* on Windows the result is never a device name (whatever follows the first dot), and it is
+     still over the allowed alphabet *)
+  Lemma filename_windows s :
+    let r := secure_filename_os true s in
+    is_device r = false /\ forallb allowed_char r = true /\ forallb no_sep_blank_nul r = true.
+  Proof.
+    cbv zeta. unfold secure_filename_os, secure_core_os.
+    set (f := strip strip_char _).
+    assert (Ha : forallb allowed_char f = true).
+    { unfold f. apply forallb_strip. erewrite forallb_ext; [apply filter_forallb|]. intro c. symmetry. apply keep_allowed. }
+    cbn [andb]. destruct (negb (is_nil f) && is_device f) eqn:E.
+    - split; [apply is_device_prefixed|].
+      assert (Hp : allowed_char device_prefix = true) by (vm_compute; reflexivity).
+      split; [cbn [forallb]; rewrite Hp; exact Ha|]. cbn [forallb]. rewrite (allowed_no_sep _ Hp).
+      eapply forallb_impl; [|exact Ha]. apply allowed_no_sep.
+    - split.
+      + destruct f as [|c f']; [apply is_device_nil|]. cbn [is_nil negb andb] in E. exact E.
+      + split; [exact Ha|]. eapply forallb_impl; [|exact Ha]. apply allowed_no_sep.
+  Qed.
+End NfkdWindows.
+
+Lemma filename_windows_example :
+  secure_core_os true [99; 111; 110; 46; 116; 120; 116] = [95; 99; 111; 110; 46; 116; 120; 116]
+  /\ secure_core_os true [97; 92; 98] = [97; 95; 98]
+  /\ secure_core_os false [97; 92; 98] = [97; 98].
+Proof. vm_compute. repeat split; reflexivity. Qed.
+
+(* ------------------------------------------------------------------ every kind of export *)
+
+Section Serving.
+  Variable available : ckind -> str -> bool.
+
+  Lemma shared_lookup_all_contained exports path k f :
+    shared_lookup_all available exports path = Some (k, f) ->
+    exists sp e, In (sp, e) exports /\
+      match e with
+      | EFile g => k = KFixed /\ f = g /\ (sp = path \/ exists rest, path = export_prefix sp ++ rest)
+      | EDir d => k = KIsFile /\ available KIsFile f = true /\
+                  ((sp = path /\ f = d)
+                   \/ exists rest, path = export_prefix sp ++ rest /\ safe_join d [rest] = Some f
+                                   /\ inside (normpath (base_dir d)) (normpath f) = true)
+      | EPkg pp => k = KResource /\ available KResource f = true /\
+                   exists rest, path = export_prefix sp ++ rest /\ safe_join pp [rest] = Some f
+                                /\ inside (normpath (base_dir pp)) (normpath f) = true
+      end.
+  Proof.
+    unfold shared_lookup_all. intro H. apply find_some in H. destruct H as [Hin Hav]. cbn [fst snd] in Hav.
+    unfold shared_candidates_all in Hin. apply in_flat_map in Hin. destruct Hin as [[sp e] [He Hc]].
+    exists sp, e. split; [exact He|]. cbn [fst snd] in Hc. unfold export_candidates_all in Hc.
+    cbv zeta in Hc. change (if sdm_append_slash sp then sp ++ sdm_slash else sp) with (export_prefix sp) in Hc.
+    apply in_app_or in Hc. destruct Hc as [Hc|Hc].
+    - (* exact match: loader(None) *)
+      unfold sdm_exact in Hc. destruct (list_eqb sp path) eqn:E; [|exact (False_ind _ Hc)]. apply list_eqb_eq in E.
+      destruct e as [d|g|pp]; cbn [loader_target dir_target opt_list map In] in Hc.
+      + destruct Hc as [Hc|[]]. inversion Hc; subst k f. split; [reflexivity|]. split; [exact Hav|]. left. auto.
+      + destruct Hc as [Hc|[]]. inversion Hc; subst k f. split; [reflexivity|]. split; [reflexivity|]. left. exact E.
+      + destruct Hc.
+    - unfold sdm_prefix in Hc. destruct (starts_with (export_prefix sp) path) eqn:E; [|exact (False_ind _ Hc)].
+      destruct (starts_with_spec _ _ E) as [rest Hp]. rewrite Hp, skipn_app_exact in Hc.
+      destruct e as [d|g|pp]; cbn [loader_target dir_target] in Hc.
+      + change (In (k, f) (map (pair KIsFile) (opt_list (safe_join d [rest])))) in Hc.
+        destruct (safe_join d [rest]) as [g|] eqn:Ej; [|exact (False_ind _ Hc)]. cbn [opt_list map In] in Hc.
+        destruct Hc as [Hc|[]]. inversion Hc; subst k g. split; [reflexivity|]. split; [exact Hav|]. right.
+        exists rest. split; [exact Hp|]. split; [exact Ej|apply (containment d [rest] f Ej)].
+      + cbn [In] in Hc. destruct Hc as [Hc|[]]. inversion Hc; subst k f. split; [reflexivity|]. split; [reflexivity|].
+        right. exists rest. exact Hp.
+      + change (In (k, f) (map (pair KResource) (opt_list (safe_join pp [rest])))) in Hc.
+        destruct (safe_join pp [rest]) as [g|] eqn:Ej; [|exact (False_ind _ Hc)]. cbn [opt_list map In] in Hc.
+        destruct Hc as [Hc|[]]. inversion Hc; subst k g. split; [reflexivity|]. split; [exact Hav|].
+        exists rest. split; [exact Hp|]. split; [exact Ej|apply (containment pp [rest] f Ej)].
+  Qed.
+End Serving.
